@@ -31,9 +31,31 @@ func init() {
 
 // ---------------------------------------------------------------- parent side
 type c03Worker struct {
-	cmd *exec.Cmd
-	in  io.WriteCloser
-	out *bufio.Reader
+	cmd    *exec.Cmd
+	in     io.WriteCloser
+	out    *bufio.Reader
+	stderr *c03Buf
+}
+
+// what the worker wrote to stderr (a Go panic trace when the code under test killed it)
+type c03Buf struct {
+	mu sync.Mutex
+	b  []byte
+}
+
+func (b *c03Buf) Write(p []byte) (int, error) {
+	b.mu.Lock()
+	defer b.mu.Unlock()
+	if len(b.b) < 1<<20 {
+		b.b = append(b.b, p...)
+	}
+	return len(p), nil
+}
+
+func (b *c03Buf) String() string {
+	b.mu.Lock()
+	defer b.mu.Unlock()
+	return string(b.b)
 }
 
 var (
@@ -51,7 +73,8 @@ func c03Start() (*c03Worker, error) {
 		return nil, err
 	}
 	cmd := exec.Command(exe, "internal", "c03w", c03base)
-	cmd.Stderr = os.Stderr
+	eb := &c03Buf{}
+	cmd.Stderr = eb
 	in, err := cmd.StdinPipe()
 	if err != nil {
 		return nil, err
@@ -63,7 +86,7 @@ func c03Start() (*c03Worker, error) {
 	if err := cmd.Start(); err != nil {
 		return nil, err
 	}
-	return &c03Worker{cmd: cmd, in: in, out: bufio.NewReaderSize(out, 1<<20)}, nil
+	return &c03Worker{cmd: cmd, in: in, out: bufio.NewReaderSize(out, 1<<20), stderr: eb}, nil
 }
 
 func (w *c03Worker) kill() {
@@ -76,6 +99,23 @@ func (w *c03Worker) kill() {
 func c03Call(kind uint64, in Sx) Sx {
 	c03mu.Lock()
 	defer c03mu.Unlock()
+	out := c03Call1(fmt.Sprintf("%x", kind), in)
+	if kind == 0x0302 && len(out.L) == 1 && out.L[0].Str() == "worker-dead" {
+		// the receiver killed its process: a fresh worker reports what the jail looks like now
+		class := "9"
+		if strings.Contains(c03lastStderr, "closed channel") {
+			class = "3"
+		} else if n := len(c03lastStderr); n > 0 {
+			fmt.Fprintln(os.Stderr, "c03 worker died:", c03lastStderr[max(0, n-1500):])
+		}
+		return c03Call1("302p"+class, in)
+	}
+	return out
+}
+
+var c03lastStderr string
+
+func c03Call1(kind string, in Sx) Sx {
 	if c03w == nil {
 		w, err := c03Start()
 		if err != nil {
@@ -84,7 +124,7 @@ func c03Call(kind uint64, in Sx) Sx {
 		c03w = w
 	}
 	w := c03w
-	if _, err := fmt.Fprintf(w.in, "%x\t%s\n", kind, in.String()); err != nil {
+	if _, err := fmt.Fprintf(w.in, "%s\t%s\n", kind, in.String()); err != nil {
 		w.kill()
 		c03w = nil
 		return L(S("worker-dead"))
@@ -102,6 +142,7 @@ func c03Call(kind uint64, in Sx) Sx {
 	case r := <-ch:
 		if r.err != nil {
 			w.kill()
+			c03lastStderr = w.stderr.String()
 			c03w = nil
 			return L(S("worker-dead"))
 		}
@@ -153,6 +194,8 @@ func c03WorkerMain(args []string) {
 			out = c03InJail(func() Sx { return child0301(in) })
 		case parts[0] == "302":
 			out = c03InJail(func() Sx { return child0302(in) })
+		case strings.HasPrefix(parts[0], "302p"):
+			out = c03Post0302(int(parts[0][4] - '0'))
 		default:
 			out = L(S("bad-kind"))
 		}
